@@ -2,6 +2,7 @@ package lib
 
 import (
 	"errors"
+	"fmt"
 	"io"
 	"net"
 	"os"
@@ -54,6 +55,10 @@ func verifErrPeer(kind int, op string, peer net.Addr) error {
 		return wrap(os.NewSyscallError(op, syscall.ECONNREFUSED))
 	case 10:
 		return wrap(os.NewSyscallError(op, syscall.ECONNABORTED))
+	case 11:
+		// a layered connection (DTLS record layer, TLS, framing) reporting the socket's error
+		// wrapped in its own - with an errno nobody listed
+		return fmt.Errorf("record layer: %w", wrap(os.NewSyscallError(op, syscall.ENETUNREACH)))
 	}
 	return errors.New("some other failure")
 }
